@@ -200,7 +200,14 @@ STMTS = ['x=({0})', 'x:({0})=({1})', 'x:({0})', 'x+=({0})', 'x,y=({0})', 'x=y=({
          'try:pass\nexcept* ({0}):pass', 'match ({0}):\n case [1,x,*r] if ({1}):pass\n case {{"k":v,**o}}|C(a,b=2):pass\n case "s"|None|-1|1+2j|a.b:pass\n case _:pass',
          'import a.b as c,d\nfrom . import e\nfrom ..f import g as h,i\nfrom j import *', 'global q\nq=({0})', 'def k():\n x=1\n def l():\n  nonlocal x\n  x=({0})', 'lambda:(yield)', 'print(({0}),sep=({1}))',
          'type T=({0})', 'def m[T:int,*U,**V](a:T)->T:return ({0})', 'class N[T]:pass', 'x=({0});y=({1})', 'if ({0}):\n if ({1}):pass\n else:pass', 'return_=1\nclass O:\n def p(self):return', 'pass',
-         '"""doc"""\nx=1', 'for x in y:\n continue', 'with (a,b):pass', 'with (a,b) as c:pass', 'with (a as b,c as d):pass']
+         '"""doc"""\nx=1', 'for x in y:\n continue', 'with (a,b):pass', 'with (a,b) as c:pass', 'with (a as b,c as d):pass',
+         # every spelling that changes a node field: parenthesised annotation targets (simple=0), attribute / subscript targets, bare annotations
+         '(x):({0})=({1})', '(x):({0})', '(x.a):({0})=({1})', 'x.a:({0})=({1})', 'x[0]:({0})', '(x[0]):({0})=({1})', 'class AN:\n (x):({0})=({1})\n y:({0})', 'def an():\n (x):({0})\n x=({1})',
+         'x=({0}),', 'x=*({0}),({1})', 'def r():\n return ({0}),({1})', 'def r():\n return *({0}),', 'for x in *({0}),({1}):pass', 'del (x),[y,z]', 'del (x,y)', 'x=y=z=({0})', 'with a,b as c:pass',
+         'def r():\n raise', 'raise ({0})', 'assert ({0})', 'global a,b', 'try:pass\nfinally:pass', 'try:pass\nexcept (A,B):pass', 'class P():pass', 'class P(*({0}),**({1})):pass',
+         'def s(*,a):pass', 'def s(a,/):pass', 'def s(*a,**k):pass', 'def s(a=({0}),*,b=({1})):pass', 'x=lambda *,a:a', 'x=lambda a,/,b=({0}),*c,d,e=({1}),**f:a', 'async def t():\n async with a as (b,c),d:pass\n async for (i,j) in ({0}):pass',
+         'import a', 'import a as b', 'from . import a', 'from .. import a as b', 'from .a import b', 'from a import (b,c)', 'x=[*({0})]', 'x={{*({0})}}', 'x=({0}) if ({1}) else ({0})', 'if ({0}):pass\nelse:\n if ({1}):pass',
+         'while ({0}):pass', 'x[({0}):({1})]=1', 'x[({0}),({1})]=1', 'x[::({0})]=1', 'x[...]=({0})', 'print(*({0}),**({1}))', 'f(a)(b)[c].d', 'x=not ({0})', 'x=-({0})', 'x=({0})**-({1})', 'x=(-({0}))**({1})', 'x=await_', 'match x:\n case P(a=({0})):pass' if False else 'pass']
 
 
 def variants(r, tier):
